@@ -3,12 +3,12 @@ package main
 // One machine = one run of a harness along one path (decision trace).
 
 import (
+	"context"
 	"fmt"
 	"go/types"
 	"os"
 	"sort"
 	"strings"
-	"context"
 	"sync"
 	"sync/atomic"
 	"time"
